@@ -115,6 +115,8 @@ def gen_softmax(rng, idx):
     elif pre == "reshape3":
         cur = b.reshape(cur, [h, w, c])
     y = add_softmax(b, rng, cur)
+    if len(b.t(y).shape) == 4 and b.t(y).shape[0] == 1 and rng.random() < 0.2:
+        y = reshape_like(b, rng, y)
     return b.finish([y])
 
 
@@ -596,6 +598,19 @@ def corpus_net(rng, name):
             y = b.pool(x, "AVERAGE_POOL_2D", (2, 2), (1, 4), "VALID")
             z = b.reshape(y, [1, 84])
         return b.finish([z])
+    if name == "known_transpose_lut_mul":
+        b = make_builder(rng, name, "int8")
+        x = b.input([1, 5, 5, 16], scale=0.089, zp=-101)
+        pt = b.const([4], "int32", [0, 2, 1, 3], name=b.fresh("perm"))
+        t_ = b.fm([1, 5, 5, 16], "int8", scale=0.089, zp=-101)
+        b.net.ops.append(netgen.Op("TRANSPOSE", [x, pt], [t_], ("TransposeOptions", {})))
+        al = b.const([1, 1, 16], "int8", np.full(16, 70), [0.01], [-5])
+        y = b.fm([1, 5, 5, 16], "int8", scale=0.00296, zp=-35)
+        b.net.ops.append(netgen.Op("PRELU", [t_, al], [y], None))
+        c = b.const([1, 5, 5, 16], "int8", np.random.RandomState(3).randint(-128, 128, 400), [0.0038], [-84])
+        o = b.fm([1, 5, 5, 16], "int8", scale=0.00139, zp=102)
+        b.net.ops.append(netgen.Op("MUL", [y, c], [o], ("MulOptions", dict(FusedActivationFunction=0))))
+        return b.finish([o])
     if name == "known_prelu_reshape":
         b = make_builder(rng, name, "int8")
         x = b.input([1, 3, 4, 6], scale=0.05, zp=3)
@@ -900,7 +915,8 @@ def transpose_then_activation(o):
     for kind, ins, outs, faf, pad, stride in g:
         for t in ins:
             consumers.setdefault(t, []).append(kind)
-    return any(kind == "TRANSPOSE" and any(c in ("RELU", "RELU6", "RELU_N1_TO_1") for c in consumers.get(outs[0], []))
+    post = ("RELU", "RELU6", "RELU_N1_TO_1", "LEAKY_RELU", "PRELU", "TANH", "LOGISTIC", "HARD_SWISH", "EXP")
+    return any(kind == "TRANSPOSE" and any(c in post for c in consumers.get(outs[0], []))
                for kind, ins, outs, faf, pad, stride in g)
 
 
@@ -957,7 +973,7 @@ def main():
                                                               "mean_unit_axes", "concat_batch_axis",
                                                               "resize_reshape", "mean_reshape", "widepool_reshape",
                                                               "transpose_relu", "sqdiff_reshape", "dilation3_uint8", "shared_dilation3", "shared_tconv",
-                                                              "prelu_reshape")]
+                                                              "prelu_reshape", "transpose_lut_mul")]
     jobs += [(ck.seed, i, PROFILES[i % len(PROFILES)], k_inputs) for i in range(n)]
     ctx = multiprocessing.get_context("fork")
     with ProcessPoolExecutor(min(16, os.cpu_count() or 4), mp_context=ctx) as ex:
